@@ -31,7 +31,8 @@ def _plain(x):
     return x
 
 
-def make_ga(rows, extras=(), cls=None, meta=None):
+def make_ga(rows, extras=(), cls=None, meta=None, odd=False):
+    """odd=True: non-default (unique, increasing) row labels, as a filtered array has."""
     from skgenome import GenomicArray
     cls = cls or GenomicArray
     cols = ["chromosome", "start", "end"] + list(extras)
@@ -39,6 +40,8 @@ def make_ga(rows, extras=(), cls=None, meta=None):
         df = pd.DataFrame.from_records(list(rows), columns=cols)
     else:
         df = pd.DataFrame({c: pd.Series([], dtype=(str if c == "chromosome" or c in ("gene", "strand") else "int64" if c in ("start", "end", "probes") else float)) for c in cols})
+    if odd and len(df):
+        df.index = np.arange(len(df)) * 3 + 2
     return cls(df, meta)
 
 
